@@ -724,8 +724,19 @@ def r_transfer_flags(ctx):
     data_v, first_v, last_v = [unparse(e) for e in rets[0].ast.value.elts]
     # offset counter: the key advanced by `+= size`
     adv = [n for n in cfg.nodes if n.kind == 'stmt' and isinstance(n.ast, ast.AugAssign) and isinstance(n.ast.op, ast.Add) and isinstance(n.ast.target, ast.Subscript)]
+    adv_amount = adv[0].ast.value if adv else None
+    adv_target = adv[0].ast.target if adv else None
+    if not adv:
+        # d[k] = d[k] + n
+        for n in cfg.nodes:
+            if n.kind == 'stmt' and isinstance(n.ast, ast.Assign) and len(n.ast.targets) == 1 and isinstance(n.ast.targets[0], ast.Subscript) and isinstance(n.ast.value, ast.BinOp) \
+                    and isinstance(n.ast.value.op, ast.Add) and unparse(n.ast.targets[0]) in (unparse(n.ast.value.left), unparse(n.ast.value.right)):
+                adv.append(n)
+                adv_target = n.ast.targets[0]
+                adv_amount = n.ast.value.right if unparse(n.ast.value.left) == unparse(adv_target) else n.ast.value.left
+                break
     ctx.require(adv, 'transfer offset is never advanced')
-    key = unparse(adv[0].ast.target)
+    key = unparse(adv_target)
     firsts = [n for n in cfg.nodes if n.kind == 'stmt' and isinstance(n.ast, ast.Assign) and unparse(n.ast.targets[0]) == first_v]
     inst = 'first-chunk flag = (offset == 0), computed before the offset advances'
     ctx.tick()
@@ -741,7 +752,7 @@ def r_transfer_flags(ctx):
     # the offset advances by the size of the chunk that was read
     inst = 'offset advances by the length of the chunk'
     ctx.tick()
-    sz = unparse(adv[0].ast.value)
+    sz = unparse(adv_amount)
     szdef = [n for n in cfg.nodes if n.kind == 'stmt' and isinstance(n.ast, ast.Assign) and unparse(n.ast.targets[0]) == sz]
     if szdef and unparse(szdef[0].ast.value) == 'len(%s)' % data_v:
         ctx.ok(inst, g.loc(adv[0].ast), '%s += len(%s)' % (key, data_v))
